@@ -24,10 +24,19 @@ func (a *Abs) MarshalJSON() ([]byte, error) {
 	case "bool":
 		return json.Marshal(map[string]any{"t": a.T, "v": a.B})
 	case "int":
+		if a.BigDec != nil {
+			return json.Marshal(map[string]any{"t": a.T, "dec": a.BigDec})
+		}
 		return json.Marshal(map[string]any{"t": a.T, "v": a.I})
 	case "flt":
+		if a.NegZero {
+			return json.Marshal(map[string]any{"t": a.T, "q": a.Q, "negzero": true, "s": a.S})
+		}
 		if len(a.Q) < 2 {
 			return json.Marshal(map[string]any{"t": a.T, "s": a.S})
+		}
+		if a.S != "" {
+			return json.Marshal(map[string]any{"t": a.T, "q": a.Q, "s": a.S})
 		}
 		return json.Marshal(map[string]any{"t": a.T, "q": a.Q})
 	case "str":
